@@ -1138,6 +1138,59 @@ def oracle_navigation(r):
     return bad
 
 
+def is_cyclic_prefix(seq, to):
+    return all(to and x == to[i % len(to)] for i, x in enumerate(seq))
+
+
+def oracle_cyclic(r):
+    """Statement of maximal_walk_cyclic on the implementation: in a table without a leap start (repeats and endings,
+    nested or not) the maximal path leaves every segment along its destinations in cyclic order, the last one for END."""
+    bad = []
+    r.cyc = None
+    if any(x[5] == 1 for x in r.segs):
+        return bad
+    tab = seg_table(r)
+    feats = set()
+    for il in (True, False):
+        ps = r.paths[(False, True, il)]
+        if not ps:
+            continue
+        for p in ps:
+            full = list(p) + [-1]
+            for sid in sorted(tab):
+                to = tab[sid][3]
+                succ = [b for a, b in zip(full, full[1:]) if a == sid]
+                if not is_cyclic_prefix(succ, to):
+                    bad.append(("cyclic", "maximal path %s (ignore_leap_info=%s) leaves %s for %s, its destinations are %s: "
+                                "not in cyclic order" % ("-".join(chr(65 + i) for i in p), il, chr(65 + sid),
+                                                         [("END" if x < 0 else chr(65 + x)) for x in succ],
+                                                         [("END" if x < 0 else chr(65 + x)) for x in to])))
+                if len(to) >= 2 and len(succ) > len(to):
+                    feats.add("a_segment_left_more_often_than_it_has_destinations")
+                if len(to) >= 3 and len(succ) >= 3:
+                    feats.add("three_or_more_destinations_used")
+                if len(set(to)) < len(to) and len(succ) >= 2:
+                    feats.add("duplicate_destinations_used")
+            feats.add("checked")
+    # minimal_walk_last: one path, every segment always left for its last destination
+    for il in (True, False):
+        ps = r.paths[(True, False, il)]
+        if ps is None:
+            continue
+        if len(ps) != 1:
+            bad.append(("cyclic", "the minimal policy (ignore_leap_info=%s) returns %d paths on a table without leaps" % (il, len(ps))))
+        for p in ps:
+            full = list(p) + [-1]
+            for a, b in zip(full, full[1:]):
+                if a in tab and tab[a][3] and b != tab[a][3][-1]:
+                    bad.append(("cyclic", "minimal path %s leaves %s for %s, not for its last destination"
+                                % ("-".join(chr(65 + i) for i in p), chr(65 + a), "END" if b < 0 else chr(65 + b))))
+                    break
+            feats.add("minimal_checked")
+    r.cyc = sorted(feats)
+    return bad[:2]
+
+
 def oracle_paths(r):
     bad = []
     for pol in POLICIES:
@@ -1148,6 +1201,7 @@ def oracle_paths(r):
             w = is_walk(r, p)
             if w:
                 bad.append(("walk", "get_paths%r returned %s which %s" % (pol, "-".join(chr(65 + i) for i in p), w)))
+    bad += oracle_cyclic(r)
     kind = structure_kind(r.spec)
     allp = r.paths[(False, False, True)]
     maxp = r.paths[(False, True, True)]
@@ -2404,6 +2458,126 @@ def is_k3(obj):
     return False
 
 
+# ----------------------------------------------------------------------------
+# unit stream: Path.list_of_destinations_from_last_segment / make_copy_with_jump_to on real Path objects built
+# directly (destination lists with duplicates, used lists as the policies make them and arbitrary ones, up to
+# and beyond the 100 rounds), compared in Coq with dests_of / depart of Model/C09_cycle.v
+
+CYC_IDS = ["A", "B", "C", "D", "E"]
+
+
+def cyc_code(x):
+    return -1 if x == "END" else ord(x) - 65
+
+
+def cycle_cases(rng, n):
+    import partitura.score as S
+    from collections import defaultdict
+    terms, descr, feats = [], [], Counter()
+    for _ in range(n):
+        nd = rng.choice([0, 1, 1, 2, 2, 2, 3, 3, 3, 4, 4, 5])
+        pool = CYC_IDS + (["END"] if rng.random() < 0.4 else [])
+        shape = rng.choice(["distinct", "distinct", "adjacent_duplicates", "any_duplicates"])
+        if shape == "distinct" or nd < 2:
+            to = rng.sample(pool, nd)
+        elif shape == "adjacent_duplicates":       # "1, 2" brackets: C C D
+            base = rng.sample(pool, rng.randint(1, nd - 1))
+            to = list(base)
+            while len(to) < nd:
+                j = rng.randrange(len(to))
+                to.insert(j, to[j])
+        else:
+            base = rng.sample(pool, rng.randint(1, nd - 1))
+            to = [rng.choice(base) for _ in range(nd)]
+        if "END" in to and rng.random() < 0.7:      # where _make_segments puts it
+            to = [x for x in to if x != "END"] + ["END"] * to.count("END")
+        beyond = False
+        mode = rng.choice(["empty", "cyclic", "cyclic", "cyclic", "cyclic", "skipping", "skipping", "arbitrary"]) if nd else \
+            rng.choice(["empty", "arbitrary"])
+        if mode == "empty":
+            used = []
+        elif mode == "cyclic":
+            if rng.random() < 0.2:
+                # up to 100 rounds the answer is demanded; beyond, partitura raises IndexError (the model too:
+                # dests_hundred_rounds) -- observed and counted, not compared: the limit is not part of the property
+                k = 100 * nd + rng.choice([-2, -1, 0, -nd, -nd - 1, -2 * nd, 1, nd + 1])
+                feats["used:at_the_100_round_limit" if k <= 100 * nd else "used:beyond_100_rounds_(not_compared)"] += 1
+                beyond = k > 100 * nd
+            else:
+                k = rng.randint(1, 3 * nd + 1)
+            used = [to[i % nd] for i in range(k)]
+            feats["used:rounds>=1" if k > nd else "used:first_round"] += 1
+        elif mode == "skipping":                    # as the all-variants policy consumes: any of the destinations offered
+            used = []
+            sk_segs = {"A": S.Segment("A", list(to), [], False, "default")}
+            try:
+                for _k in range(rng.randint(1, 2 * nd + 2)):
+                    offered = S.Path(["A"], sk_segs, used_segment_jumps=defaultdict(list, {"A": list(used)}) if used else None
+                                     ).list_of_destinations_from_last_segment
+                    if not offered:
+                        break
+                    used.append(rng.choice(list(offered)))
+            except Exception:
+                pass
+        else:
+            cand = (to or ["B"]) + (["E", "END", "Z"] if rng.random() < 0.3 else [])
+            used = [rng.choice(cand) for _k in range(rng.randint(1, 6))]
+        nr, ar = rng.choice([(False, True), (False, True), (False, True), (False, False), (False, False), (False, False),
+                             (True, False), (True, True)])
+        segs = {x: S.Segment(x, ["A"], [], False, "default") for x in CYC_IDS}
+        segs["A"] = S.Segment("A", list(to), [], False, "default")
+        path = S.Path(["A"], segs, used_segment_jumps=defaultdict(list, {"A": list(used)}) if used else None,
+                      no_repeats=nr, all_repeats=ar)
+        try:
+            seen = list(path.list_of_destinations_from_last_segment)
+        except Exception:                            # IndexError upstream; the kind of error is not part of the property
+            seen = None
+        if "A" in segs and list(segs["A"].to) != list(to):
+            seen = ["Z"]                             # the property must not edit the table
+        # the run: the segment is left again and again from a fresh path, each time along the first destination offered
+        steps, run = 0, []
+        if to and "END" not in to:
+            steps = rng.choice([0, 1, 2, 3, nd, nd + 1, 2 * nd + 1, 3 * nd + 2] +
+                               ([100 * nd - 1, 100 * nd, 100 * nd + 1] if nd <= 2 and rng.random() < 0.5 else []))
+            pth = S.Path(["A"], segs, no_repeats=nr, all_repeats=ar)
+            try:
+                for _k in range(steps):
+                    ds = pth.list_of_destinations_from_last_segment
+                    if not ds:
+                        run = None
+                        break
+                    pth = pth.make_copy_with_jump_to(ds[0], ignore_leap_info=rng.random() < 0.5)
+                    if ds[0] != "A":
+                        pth = pth.make_copy_with_jump_to("A")
+                if run is not None:
+                    run = list(pth.used_segment_jumps["A"])
+            except Exception:
+                run = None
+        if beyond:
+            feats["beyond_100_rounds:" + ("IndexError" if seen is None else "continues")] += 1
+            continue
+        if mode == "arbitrary" or nd == 0:
+            # used lists no path can have (ids that are no destinations, impossible orders) and segments without
+            # destinations: run and counted, not compared -- what happens there is not part of the property
+            feats["unreachable_state_(not_compared):" + ("raises" if seen is None else "answers")] += 1
+            continue
+        czs = lambda l: clist([cz(cyc_code(x)) for x in l])
+        terms.append("(mkDC %s %s %s %s %s %d%%nat %s)" % (
+            czs(to), czs(used), cbool(nr), cbool(ar), copt(seen, czs), steps,
+            copt(run, czs)))
+        descr.append({"to": to, "used": used[:12] + (["... %d" % len(used)] if len(used) > 12 else []), "no_repeats": nr,
+                      "all_repeats": ar, "offered": seen, "steps": steps,
+                      "run": None if run is None else run[:12]})
+        feats["destinations:%d" % nd] += 1
+        feats["list:" + ("duplicates" if len(set(to)) < len(to) else "distinct")] += 1
+        feats["used:" + mode] += 1
+        feats["policy:" + ("minimal" if nr else "maximal" if ar else "all_variants")] += 1
+        feats["offered:" + ("IndexError" if seen is None else "%d" % min(len(seen), 3))] += 1
+        feats["run:" + ("none" if steps == 0 else "IndexError" if run is None else "over_100_rounds" if steps >= 100 else
+                        "wraps" if steps > nd else "within_first_round")] += 1
+    return terms, descr, feats
+
+
 def work(item):
     """One case in a worker process: implementation, direct oracle, Coq term.  Everything returned is plain data."""
     idx, origin, spec, seed = item
@@ -2434,6 +2608,7 @@ def work(item):
                       entries=sorted({v[0].split("(")[0].split("[")[0] for v in r.variants}),
                       nav_ref=nav_reference(spec_n, "max", True) is not None,
                       sample={"spec": spec_n, "step": label, "segments": r.segs, "paths_all": r.paths[POLICIES[0]]})
+            st["cyc"] = getattr(r, "cyc", None) or []
             if getattr(r, "term", None) is not None:
                 st["term"] = r.term
             if getattr(r, "heap_term", None) is not None:
@@ -2469,7 +2644,10 @@ def run(ctx):
                 "note attributes, a note removed, a mark in every reachable container) and the original, the other "
                 "returned parts and the untouched objects of the edited part must be as before, the same call again "
                 "gives an equal part; a third of the rich parts carry notes with symbolic_duration / articulations / "
-                "ornaments / technical values as importers store them.  Distinct "
+                "ornaments / technical values as importers store them.  Unit stream (400 / 4000): real Path objects on a "
+                "hand-made table, destination lists of 1-5 ids (duplicates, END), used lists empty / cyclic up to 100 rounds / "
+                "as the all-variants policy can choose, three policies, and k departures through make_copy_with_jump_to; "
+                "beyond 100 rounds and states no path can have: counted, not compared.  Distinct "
                 "non-trivial = distinct (marks, notes) whose segment table has a segment with >= 2 destinations.")
     ctx.trusted = ["Coq 8.16.1 kernel incl. vm_compute",
                    "harness/props/c09.py: abstraction of a Part (marks in iter_all order, object dump in time-point/"
@@ -2508,7 +2686,11 @@ def run(ctx):
     nproc = max(1, min(core.NJOBS, len(items)))
     pool = multiprocessing.get_context("fork").Pool(nproc)
     results = pool.imap(work, items, chunksize=2 if quick else 8)
-    ok, why = ctx.coq_props(expect_min=43)
+    ok, why = ctx.coq_props(expect_min=58)
+    cyc_terms, cyc_descr, cyc_feats = cycle_cases(__import__("random").Random(rng.getrandbits(32)), 500 if quick else 5000)
+    for k in sorted(cyc_feats):
+        ctx.count("cycle:" + k, cyc_feats[k])
+    ctx.evaluations += len(cyc_terms)
     shard = 24 if quick else 60
     executor = ThreadPoolExecutor(max_workers=max(1, core.NJOBS))
     futures = []          # (first global index, future)
@@ -2561,6 +2743,8 @@ def run(ctx):
                 ctx.nontrivial(st["key"])
             if st["raises"]:
                 ctx.count("outcome:get_paths_raises")
+            for f in st.get("cyc", []):
+                ctx.count("cyclic_order:" + f)
             if bad and nviol < 6:
                 seen_kinds = set()
                 for kind, msg, extra in bad:
@@ -2597,7 +2781,14 @@ def run(ctx):
                                "(marks * list hitem)%type") if hterms else None
         heapfut = executor.submit(ctx.coq_failing, "heap", "From PV Require Import Model.C09_heap.", "", heapterms,
                                   "check_heap", 150, 1500, "heapcase") if heapterms else None
+        cycfut = executor.submit(ctx.coq_failing, "cycle", "From PV Require Import Model.C09 Model.C09_cycle.", "", cyc_terms,
+                                 "fun c => Z.eqb (check_dcase c) 0", 2000, 600, "(dcase * nat)%type")
         failing, err = [], None
+        cycfailing = []
+        try:
+            cycfailing = sorted(cycfut.result())
+        except RuntimeError as e:
+            err = str(e)
         for lo, fut in futures:
             try:
                 failing += [lo + k for k in fut.result()]
@@ -2616,6 +2807,18 @@ def run(ctx):
             except RuntimeError as e:
                 err = str(e)
         executor.shutdown()
+        if err is None:
+            ctx.obligation("correspondence: Path.list_of_destinations_from_last_segment on real Path objects (destination "
+                           "lists of 1-5 ids with duplicates and END, used lists: empty / cyclic up to 100 rounds / "
+                           "as the all-variants policy can choose, the three policies) = dests_of, and "
+                           "used_segment_jumps after k departures through make_copy_with_jump_to = depart k "
+                           "(Model/C09_cycle.v; the definitions of dests_maximal_cyclic, depart_cyclic, maximal_walk_cyclic), "
+                           "on %d cases" % len(cyc_terms), not cycfailing, cycfailing[:5])
+            for i in cycfailing[:2]:
+                which = ctx.coq_eval("From PV Require Import Model.C09 Model.C09_cycle.", "check_dcase %s" % cyc_terms[i])
+                ctx.violation("the destinations a Path offers from its last segment (1), or the destinations used after leaving "
+                              "a segment k times (2), are not those of the model (check_dcase): %s" % which[-60:],
+                              {"kind": "cycle-correspondence", "cycle_case": cyc_descr[i]})
         if err is None:
             ctx.obligation("correspondence: the lists held by the copies in an unfolded part (slur_starts / slur_stops / "
                            "tuplet_starts / tuplet_stops of every copy of every visit) are, by object identity, the cells the "
@@ -2671,6 +2874,20 @@ def replay(obj):
     rp = obj.get("replay", obj)
     spec = rp.get("spec")
     print(json.dumps(obj, indent=1, default=str)[:3000])
+    if rp.get("cycle_case"):
+        import partitura.score as S
+        from collections import defaultdict
+        c = rp["cycle_case"]
+        segs = {x: S.Segment(x, ["A"], [], False, "default") for x in CYC_IDS}
+        segs["A"] = S.Segment("A", list(c["to"]), [], False, "default")
+        used = [x for x in c["used"] if not str(x).startswith("...")]
+        pth = S.Path(["A"], segs, used_segment_jumps=defaultdict(list, {"A": used}) if used else None,
+                     no_repeats=c["no_repeats"], all_repeats=c["all_repeats"])
+        try:
+            print("offered now:", pth.list_of_destinations_from_last_segment, "(recorded: %r)" % (c["offered"],))
+        except IndexError as e:
+            print("offered now: IndexError", e)
+        return 0
     if not spec:
         return 0
     for r, bad, skip, spec_n, label in examine_history(spec):
